@@ -760,6 +760,217 @@ theorem flood_bound (c : Cfg) (hc : CfgOk c) (m T : Nat) (hT : T < two32) : ∀ 
       push_cast
       omega
 
+/-! ### C19.6  spans that contain resets of the metric: every reset contributes the value it sets, capped as the code caps it -/
+
+/-- Σ over the reset-flood requests of `m` in `ops` of max(maxBudget, value the reset sets) — `resetAfter` is the code's own
+    capping: maxBudget for a limit ≤ 0, the limit itself up to 10000, 10000 above -/
+def resetBudgets (c : Cfg) (m : Nat) : List HOp → Int
+  | [] => 0
+  | .op (.reset m' l _) :: os => (if m' == m then max c.maxBudget (resetAfter c l) else 0) + resetBudgets c m os
+  | _ :: os => resetBudgets c m os
+
+theorem resetBudgets_nonneg (c : Cfg) (hc : CfgOk c) (m : Nat) : ∀ ops, 0 ≤ resetBudgets c m ops := by
+  intro ops
+  induction ops with
+  | nil => simp [resetBudgets]
+  | cons o os ih =>
+    have := hc.maxB
+    cases o with
+    | reopen => simpa [resetBudgets] using ih
+    | op o =>
+      cases o with
+      | reset m' l now =>
+        simp only [resetBudgets]
+        split <;> omega
+      | save a => simpa [resetBudgets] using ih
+      | getOrCreate m' k now => simpa [resetBudgets] using ih
+      | put kvs => simpa [resetBudgets] using ih
+      | delete ids => simpa [resetBudgets] using ih
+
+theorem resetBudgets_cons_noReset (c : Cfg) (m : Nat) (o : HOp) (os : List HOp) (h : noReset m o = true) :
+    resetBudgets c m (o :: os) = resetBudgets c m os := by
+  cases o with
+  | reopen => rfl
+  | op o =>
+    cases o with
+    | reset m' l now =>
+      have : (m' == m) = false := by simpa [noReset] using h
+      simp [resetBudgets, this]
+    | save a => rfl
+    | getOrCreate m' k now => rfl
+    | put kvs => rfl
+    | delete ids => rfl
+
+theorem noReset_false (m : Nat) (o : HOp) (h : noReset m o = false) : ∃ l now, o = .op (.reset m l now) := by
+  cases o with
+  | reopen => simp [noReset] at h
+  | op o =>
+    cases o with
+    | reset m' l now =>
+      have : m' = m := by simpa [noReset] using h
+      subst this; exact ⟨l, now, rfl⟩
+    | save a => simp [noReset] at h
+    | getOrCreate m' k now => simp [noReset] at h
+    | put kvs => simp [noReset] at h
+    | delete ids => simp [noReset] at h
+
+/-- after a reset-flood of `m` its remaining budget is exactly the (capped) value of the reset -/
+theorem budget_after_reset (c : Cfg) (s : State) (m : Nat) (l : Int) (now : Nat) :
+    budget c (hstep c s (.op (.reset m l now))) m = resetAfter c l := by
+  unfold budget
+  simp only [hstep, step]
+  by_cases h : l ≤ 0
+  · rw [(reset_sets_budget c s m l now).1 h]
+    simp [resetAfter, h]
+  · rw [(reset_sets_budget c s m l now).2 (by omega)]
+
+/-- both phases at once, resets of `m` allowed anywhere -/
+theorem flood_multi_aux (c : Cfg) (hc : CfgOk c) (m T : Nat) (hT : T < two32) : ∀ (ops : List HOp),
+    (∀ (s : State) (t0 : Nat), Exhausted c s → t0 ≤ T → clockOk m T t0 ops = true →
+      (createdFor c m s ops : Int) ≤ max c.maxBudget (budget c s m) + resetBudgets c m ops
+        + c.bonus * ((T / c.step - t0 / c.step : Nat) : Int)) ∧
+    (∀ (s : State) (kl : Nat) (free : Int) (t0 : Nat), Exhausted c s →
+      lookupFlood s.flood m = some { metric := m, last := c.step * kl, free := free } → 0 ≤ free →
+      kl ≤ t0 / c.step → t0 ≤ T → clockOk m T t0 ops = true →
+      (createdFor c m s ops : Int) ≤ free + resetBudgets c m ops + c.bonus * ((T / c.step - kl : Nat) : Int)) := by
+  intro ops
+  induction ops with
+  | nil =>
+    constructor
+    · intro s t0 _ _ _
+      have h0 : 0 ≤ c.bonus * ((T / c.step - t0 / c.step : Nat) : Int) := Int.mul_nonneg hc.bonus (Int.natCast_nonneg _)
+      have := hc.maxB
+      simp [createdFor, resetBudgets]; omega
+    · intro s kl free t0 _ _ hf _ _ _
+      have h0 : 0 ≤ c.bonus * ((T / c.step - kl : Nat) : Int) := Int.mul_nonneg hc.bonus (Int.natCast_nonneg _)
+      simp [createdFor, resetBudgets]; omega
+  | cons o os ih =>
+    obtain ⟨ihA, ihB⟩ := ih
+    have hrb := resetBudgets_nonneg c hc m os
+    constructor
+    · -- dirty phase
+      intro s t0 hex ht0 hck
+      obtain ⟨t1, ht01, ht1T, hck', hnow⟩ := clock_step m T t0 o os hck
+      have hex' := exhausted_hstep c s o hex
+      have hK01 : t0 / c.step ≤ t1 / c.step := Nat.div_le_div_right ht01
+      have hK1T : t1 / c.step ≤ T / c.step := Nat.div_le_div_right (ht1T ht0)
+      have hmono : c.bonus * ((T / c.step - t1 / c.step : Nat) : Int) ≤ c.bonus * ((T / c.step - t0 / c.step : Nat) : Int) :=
+        Int.mul_le_mul_of_nonneg_left (by omega) hc.bonus
+      by_cases hnr : noReset m o = true
+      · rw [resetBudgets_cons_noReset c m o os hnr]
+        simp only [createdFor]
+        rcases hstep_row c s m o hex hnr with ⟨hsame, hcr⟩ | ⟨k, now, free', ho, hcr, hnew, hfrom⟩
+        · rw [hcr]
+          have hb : budget c (hstep c s o) m = budget c s m := by unfold budget; rw [hsame]
+          have := ihA (hstep c s o) t1 hex' (ht1T ht0) hck'
+          rw [hb] at this
+          simp only [Bool.false_eq_true, if_false]
+          push_cast
+          omega
+        · rw [hcr]
+          obtain ⟨ht1, hnowT⟩ := hnow k now ho
+          subst ht1
+          have hn32 : t1 < two32 := by omega
+          have hnew' : lookupFlood (hstep c s o).flood m = some { metric := m, last := c.step * (t1 / c.step), free := free' } := by
+            rw [hnew, roundTime_eq t1 c.step hn32]
+          have hfree : 0 ≤ free' ∧ free' ≤ max c.maxBudget (budget c s m) - 1 := by
+            rcases hfrom with ⟨f, hf, hpos, hfr⟩ | ⟨hf, hfr⟩
+            · have hcap := attempt_cap c f.free (subU32 (roundTime t1 c.step) (u32 f.last) / c.step)
+              have hbud : budget c s m = f.free := by unfold budget; rw [hf]
+              rw [hbud, hfr]
+              refine ⟨by omega, ?_⟩
+              by_cases hle : f.free ≤ c.maxBudget
+              · have := hcap.1 hle; omega
+              · have := hcap.2 (by omega); omega
+            · have hbud : budget c s m = c.maxBudget := by unfold budget; rw [hf]
+              have := hc.maxB
+              rw [hbud, hfr]; omega
+          have hclean := ihB (hstep c s o) (t1 / c.step) free' t1 hex' hnew' hfree.1 (Nat.le_refl _) hnowT hck'
+          simp only [if_true]
+          push_cast
+          omega
+      · have hnr' : noReset m o = false := by simpa using hnr
+        obtain ⟨l, now, ho⟩ := noReset_false m o hnr'
+        subst ho
+        have hcr : createdNow c s m (.op (.reset m l now)) = false := rfl
+        simp only [createdFor, hcr, resetBudgets, beq_self_eq_true, if_true]
+        have := ihA (hstep c s (.op (.reset m l now))) t1 hex' (ht1T ht0) hck'
+        rw [budget_after_reset] at this
+        have hm := hc.maxB
+        simp only [Bool.false_eq_true, if_false]
+        push_cast
+        omega
+    · -- clean phase
+      intro s kl free t0 hex hrow hfree0 hkl ht0 hck
+      obtain ⟨t1, ht01, ht1T, hck', hnow⟩ := clock_step m T t0 o os hck
+      have hex' := exhausted_hstep c s o hex
+      have hk1 : kl ≤ t1 / c.step := Nat.le_trans hkl (Nat.div_le_div_right ht01)
+      have hK1T : t1 / c.step ≤ T / c.step := Nat.div_le_div_right (ht1T ht0)
+      by_cases hnr : noReset m o = true
+      · rw [resetBudgets_cons_noReset c m o os hnr]
+        simp only [createdFor]
+        rcases hstep_row c s m o hex hnr with ⟨hsame, hcr⟩ | ⟨k, now, free', ho, hcr, hnew, hfrom⟩
+        · rw [hcr]
+          have := ihB (hstep c s o) kl free t1 hex' (by rw [hsame]; exact hrow) hfree0 hk1 (ht1T ht0) hck'
+          simpa using this
+        · rw [hcr]
+          obtain ⟨ht1, hnowT⟩ := hnow k now ho
+          subst ht1
+          have hn32 : t1 < two32 := by omega
+          rcases hfrom with ⟨f, hf, hpos, hfr⟩ | ⟨hf, _⟩
+          · rw [hrow] at hf
+            injection hf with hf
+            subst hf
+            simp only at hpos hfr
+            rw [measured_steps_clean c.step kl t1 hc.step hn32 hk1] at hpos hfr
+            have hle := attempt_le c hc.bonus free (t1 / c.step - kl)
+            have hnew' : lookupFlood (hstep c s o).flood m = some { metric := m, last := c.step * (t1 / c.step), free := free' } := by
+              rw [hnew, roundTime_eq t1 c.step hn32]
+            rw [← hfr] at hle hpos
+            have hih := ihB (hstep c s o) (t1 / c.step) free' t1 hex' hnew' (by omega) (Nat.le_refl _) hnowT hck'
+            have hsplit : (T / c.step - kl : Nat) = (t1 / c.step - kl) + (T / c.step - t1 / c.step) := by omega
+            have hmul : c.bonus * ((T / c.step - kl : Nat) : Int)
+                = ((t1 / c.step - kl : Nat) : Int) * c.bonus + c.bonus * ((T / c.step - t1 / c.step : Nat) : Int) := by
+              rw [hsplit]; push_cast; rw [Int.mul_add, Int.mul_comm c.bonus]
+            rw [hmul]
+            simp only [if_true]
+            push_cast
+            omega
+          · rw [hrow] at hf; cases hf
+      · have hnr' : noReset m o = false := by simpa using hnr
+        obtain ⟨l, now, ho⟩ := noReset_false m o hnr'
+        subst ho
+        have hcr : createdNow c s m (.op (.reset m l now)) = false := rfl
+        simp only [createdFor, hcr, resetBudgets, beq_self_eq_true, if_true]
+        have := ihA (hstep c s (.op (.reset m l now))) t1 hex' (ht1T ht0) hck'
+        rw [budget_after_reset] at this
+        have hmono : c.bonus * ((T / c.step - t1 / c.step : Nat) : Int) ≤ c.bonus * ((T / c.step - kl : Nat) : Int) :=
+          Int.mul_le_mul_of_nonneg_left (by omega) hc.bonus
+        simp only [Bool.false_eq_true, if_false]
+        push_cast
+        omega
+
+/-- "…at most its remaining budget (the maximum budget, or the value set by a flood reset) plus the per-step bonus times the
+    number of elapsed steps", ACROSS RESETS: for every span of every mixed history with restarts — now with any number of
+    reset-flood requests of `m` inside — started with the global budget exhausted, under a non-decreasing clock of `m`'s requests,
+      #created(m) ≤ max(maxBudget, budget(m) at the start) + Σ_{resets of m in the span} max(maxBudget, value set by the reset)
+                    + bonus · (⌊T/step⌋ − ⌊t0/step⌋).
+    With no reset of `m` in the span this is `flood_bound`. -/
+theorem flood_bound_across_resets (c : Cfg) (hc : CfgOk c) (m T : Nat) (hT : T < two32) (ops : List HOp) (s : State) (t0 : Nat)
+    (hex : Exhausted c s) (ht0 : t0 ≤ T) (hck : clockOk m T t0 ops = true) :
+    (createdFor c m s ops : Int) ≤ max c.maxBudget (budget c s m) + resetBudgets c m ops
+      + c.bonus * ((T / c.step - t0 / c.step : Nat) : Int) :=
+  (flood_multi_aux c hc m T hT ops).1 s t0 hex ht0 hck
+
+-- non-vacuity: budget 3; three creations, flood-limit, a reset to 2 (below maxBudget: it still contributes max(3, 2) = 3 because the
+-- unrounded reset time makes the next creation wrap, observation 1), three more creations, flood-limit; one step later one more
+def withReset : List HOp :=
+  [.op (.getOrCreate 1 1 600), .op (.getOrCreate 1 2 600), .op (.getOrCreate 1 3 600), .op (.getOrCreate 1 4 600),
+   .op (.reset 1 2 630), .op (.getOrCreate 1 4 640), .op (.getOrCreate 1 5 640), .op (.getOrCreate 1 6 640), .op (.getOrCreate 1 7 640),
+   .op (.reset 2 9 650), .op (.getOrCreate 1 7 665)]
+example : clockOk 1 665 600 withReset = true ∧ createdFor c3 1 State.empty withReset = 7 ∧ resetBudgets c3 1 withReset = 3 := by decide
+example : resetBudgets c3 1 [.op (.reset 1 20000 5), .op (.reset 1 0 6), .op (.reset 1 7 7)] = 10000 + 3 + 7 := by decide
+
 /-- the remaining budget that enters the bound is itself bounded: every flood row the system writes holds at most
     max(maxBudget, 10000) (10000 = the cap of ResetFlood) -/
 theorem attempt_le_bound (c : Cfg) (free : Int) (el : Nat) (B : Int) (hB : c.maxBudget ≤ B) (h : free ≤ B) : attempt c free el ≤ B := by
